@@ -247,3 +247,44 @@ class ValidateFigureData(Contract):
 
 
 UNITS = [ValidateColumnNames(), ValidateFigureData()]
+
+
+class BodyKeysValidator(Contract):
+    """RTFBody.convert_text (before-validator of group_by / page_by / subline_by): None stays None, a single name becomes a one-element list,
+    a list of names is passed on as it is - same names, same order (the order IS the hierarchy: C13 / C05 outer-to-inner levels)."""
+    target = "input.py::RTFBody.convert_text"
+    serves = ["C13", "C05", "C19"]
+    models = [StrModel()]
+    variants = ["none", "single_name", "list"]
+
+    def setup(self, c):
+        c.bind("cls", c.cls("rtflite.input", "RTFBody"))
+        if c.variant == "none":
+            v = None
+        elif c.variant == "single_name":
+            v = c.fresh("name", T.Str)
+        else:
+            v = c.fresh("names", T.List(T.Str))
+        c.bind("v", v)
+        c.v.update(val=v)
+        if c.variant == "list":
+            o = c.obj(v)
+            c.v.update(n0=o.length, g0=o.get)
+
+    def ensures(self, c, out):
+        st = out.state
+        r = out.value
+        if c.variant == "none":
+            return {"none_stays_none": z3.BoolVal(r is None)}
+        if c.variant == "single_name":
+            ok = isinstance(r, Ref) and isinstance(st.obj(r), ListObj) and st.obj(r).items is not None and len(st.obj(r).items) == 1
+            return {"a_single_name_becomes_a_one_element_list": And(z3.BoolVal(bool(ok)), to_z3(norm_str(st.obj(r).items[0])) == to_z3(c.v["val"])) if ok else z3.BoolVal(False)}
+        if not isinstance(r, Ref):
+            return {"C13.the_key_list_keeps_its_names_in_the_given_order": z3.BoolVal(False)}
+        n, g = as_symlist(st, st.obj(r))
+        k = z3.Int("k")
+        return {"C13.the_key_list_keeps_its_names_in_the_given_order": And(to_z3(n) == to_z3(c.v["n0"]),
+                                                                            ForAll([k], Implies(And(0 <= k, k < to_z3(c.v["n0"])), to_z3(norm_str(g(k))) == to_z3(norm_str(c.v["g0"](k))))))}
+
+
+UNITS.append(BodyKeysValidator())
